@@ -43,12 +43,17 @@ def one(it):
                            env=dict(os.environ, VERIF_REPO=wt, PYVC_NO_EVIDENCE="1", PYVC_JOBS=str(max(4, 16 // jobs))))
         vio = [l.split("obligation=")[1].split()[0] for l in p.stdout.splitlines() if l.startswith("VIOLATION") and "obligation=" in l]
         und = [l for l in p.stdout.splitlines() if l.startswith(("UNDECIDED", "ENGINE-ERROR", "MISSING"))]
+        vl = [l for l in p.stdout.splitlines() if l.startswith("VIOLATION")]
+        with_input = sum(1 for l in vl if not l.rstrip().endswith("no-failing-input-found"))
         if harmless:
             status = "ok" if p.returncode == 0 else f"false-alarm(exit={p.returncode})"
         else:
             status = "caught" if p.returncode == 1 and vio else f"missed(exit={p.returncode})"
         key = "edit" if harmless else "seed"
-        json.dump({key: sid, "property": prop, "status": status, "violated_obligations": vio, "other_lines": und[:5]}, open(f"{d}/result.json", "w"), indent=1)
+        json.dump({key: sid, "property": prop, "status": status, "violated_obligations": vio, "violations_with_replayed_input": with_input if not harmless else None,
+                   "other_lines": und[:5]}, open(f"{d}/result.json", "w"), indent=1)
+        if not harmless and status == "caught" and with_input == 0:
+            status = "caught(no-failing-input-found)"
         return (sid, status, vio[:2], und[:1])
     finally:
         free.append(wt)
